@@ -77,6 +77,82 @@ Section Config.
   Qed.
 End Config.
 
+(* the same for algorithms whose Finalize is trivial only on the states that satisfy an invariant G of the algorithm state which the
+   configuration calls preserve (Powell: nothing pending to be logged, true of every solver that has not been stepped yet) *)
+Section ConfigInv.
+  Variable N : Num.
+  Variable inf : T N.
+  Variables C I : Type.
+  Variable A : algo N C I.
+  Notation sys := (sys N).
+  Notation op := (op N I).
+  Variable G : C -> Prop.
+  Hypothesis HfinG : forall s c, G c -> a_finalize N C I A s c = (c, []).
+  Hypothesis HpopG : forall c p, G c -> G (a_set_pop N C I A c p).
+  Hypothesis Hpop : forall c p, a_ehist_extra N C I A (a_set_pop N C I A c p) = a_ehist_extra N C I A c.
+
+  Lemma finalize_trivial_G s c : G c -> finalize N C I A s c = (set_live N s false, c).
+  Proof.
+    intros HG. unfold finalize. rewrite (HfinG s c HG). cbn [fst snd]. rewrite app_nil_r. destruct s; reflexivity.
+  Qed.
+
+  Notation cstep := (cfg_step N inf C I A).
+
+  Lemma cfg_step_G sc o : is_cfg N I o -> G (snd sc) -> G (snd (cstep sc o)).
+  Proof.
+    destruct sc as [s c]. intros Ho HG. cbn [snd] in HG. unfold cfg_step.
+    destruct o; try (exfalso; apply Ho; reflexivity); cbn [apply fst snd]; unfold fin; cbn [fst snd];
+      try (destruct (a_cons_finalizes N C I A)); rewrite ?(finalize_trivial_G _ _ HG); cbn [fst snd]; auto.
+  Qed.
+
+  Lemma cfg_commute_G sc o1 o2 : G (snd sc) ->
+    is_cfg N I o1 -> is_cfg N I o2 -> kind_of N I o1 <> kind_of N I o2 ->
+    cstep (cstep sc o1) o2 = cstep (cstep sc o2) o1.
+  Proof.
+    destruct sc as [s c]. intros HG H1 H2 Hk. cbn [snd] in HG. unfold cfg_step.
+    assert (HGp : forall p, G (a_set_pop N C I A c p)) by (intros p; apply HpopG; exact HG).
+    destruct o1; try (exfalso; apply H1; reflexivity);
+    destruct o2; try (exfalso; apply H2; reflexivity); try (exfalso; apply Hk; reflexivity);
+      cbn [apply fst snd]; unfold fin; cbn [fst snd];
+      try (destruct (a_cons_finalizes N C I A));
+      repeat (first [rewrite (finalize_trivial_G _ _ HG) | rewrite (finalize_trivial_G _ _ (HGp _))]; cbn [fst snd]);
+      destruct s; try reflexivity;
+      unfold set_evaluation_limits, generations, energy_history; cbn; rewrite ?Hpop; reflexivity.
+  Qed.
+
+  Lemma cfg_fold_G : forall l sc, Forall (is_cfg N I) l -> G (snd sc) -> G (snd (fold_left cstep l sc)).
+  Proof.
+    induction l as [|o l IH]; intros sc Hc HG; simpl; auto.
+    inversion Hc; subst. apply IH; auto. apply cfg_step_G; auto.
+  Qed.
+
+  Lemma cfg_run_perm_G : forall l1 l2, Permutation l1 l2 ->
+    Forall (is_cfg N I) l1 -> NoDup (map (kind_of N I) l1) ->
+    forall sc, G (snd sc) -> fold_left cstep l1 sc = fold_left cstep l2 sc.
+  Proof.
+    induction 1 as [|x l l' Hp IH|x y l|l l' l'' Hp1 IH1 Hp2 IH2]; intros Hc Hn sc HG; simpl; auto.
+    - inversion Hc; subst. inversion Hn; subst. apply IH; auto. apply cfg_step_G; auto.
+    - inversion Hc as [|? ? Hy Hc']; subst. inversion Hc' as [|? ? Hx Hl]; subst.
+      inversion Hn as [|? ? Hny Hn']; subst. f_equal.
+      apply cfg_commute_G; auto. intros E. apply Hny. simpl. left. auto.
+    - rewrite IH1; auto. apply IH2; auto.
+      + eapply Permutation_Forall; eauto.
+      + eapply Permutation_NoDup; [apply Permutation_map; exact Hp1|exact Hn].
+  Qed.
+
+  Theorem config_order_irrelevant_G (cfg1 cfg2 rest : list op) (sc : sys * C) : G (snd sc) ->
+    Permutation cfg1 cfg2 -> Forall (is_cfg N I) cfg1 -> NoDup (map (kind_of N I) cfg1) ->
+    run N inf C I A sc (cfg1 ++ rest) = run N inf C I A sc (cfg2 ++ rest) /\
+    trace N inf C I A (run N inf C I A sc cfg1) rest = trace N inf C I A (run N inf C I A sc cfg2) rest.
+  Proof.
+    intros HG Hp Hc Hn. unfold run. rewrite !fold_left_app.
+    assert (E : fold_left (fun sc o => fst (apply N inf C I A sc o)) cfg1 sc =
+                fold_left (fun sc o => fst (apply N inf C I A sc o)) cfg2 sc).
+    { apply (cfg_run_perm_G cfg1 cfg2 Hp Hc Hn sc HG). }
+    rewrite E. auto.
+  Qed.
+End ConfigInv.
+
 (* ---- the order in which a map evaluates its work items ---- *)
 Section Schedule.
   Variable N : Num.
